@@ -210,6 +210,7 @@ pub fn judge_wide(sut: &dyn Sut, choices: &[u32], stats: &mut Stats) -> Result<(
     for r in &roles_seen {
         stats.class(&format!("role_{r}"));
     }
+    stats.class_if(sh.structs.iter().any(|sd| sd.members.len() == 1 && matches!(sd.members[0].ty, Ty::RA(_))), "struct_with_sole_runtime_array_member");
     if roles_seen.len() >= 2 {
         stats.nontrivial_case(hash_str(&wgsl));
     }
